@@ -8,6 +8,7 @@ import (
 	"io/ioutil"
 	"os"
 	"path/filepath"
+	"strconv"
 
 	"github.com/go-gts/gts/cmd/cache"
 )
@@ -31,8 +32,30 @@ func attach(w io.Writer, r io.Reader) *attachment {
 
 type tuple [2]interface{}
 
+// exact replaces the strings of a payload value by their quoted ASCII form:
+// json.Marshal writes invalid UTF-8 as U+FFFD, which would give arguments
+// that differ only in such bytes the same cache key.
+func exact(v interface{}) interface{} {
+	switch v := v.(type) {
+	case string:
+		return strconv.QuoteToASCII(v)
+	case []string:
+		ss := make([]string, len(v))
+		for i, s := range v {
+			ss[i] = strconv.QuoteToASCII(s)
+		}
+		return ss
+	default:
+		return v
+	}
+}
+
 func encodePayload(tt []tuple) []byte {
-	p, err := json.Marshal(tt)
+	qq := make([]tuple, len(tt))
+	for i, t := range tt {
+		qq[i] = tuple{exact(t[0]), exact(t[1])}
+	}
+	p, err := json.Marshal(qq)
 	if err != nil {
 		panic(err)
 	}
